@@ -2356,10 +2356,10 @@ impl Drop for DB {
         };
 
         log::info!("Terminating the compaction worker background thread.");
-        if let Some(compaction_worker_join_handle) = Arc::get_mut(&mut self.compaction_worker)
-            .unwrap()
-            .stop_worker_thread()
-        {
+        // Iterators created from this database share the worker, so it cannot be taken out of its
+        // `Arc` here. The thread is stopped; an iterator that outlives the database only finds
+        // the task channel disconnected.
+        if let Some(compaction_worker_join_handle) = self.compaction_worker.stop_worker_thread() {
             if let Err(thread_panic_val) = compaction_worker_join_handle.join() {
                 log::error!(
                     "The compaction worker thread panicked while exiting. Unwinding the \
